@@ -220,6 +220,25 @@ class CGt(Predicate):
         return self.x.a > self.k
 
 
+@predicate
+def f_ix(o, i=0):
+    """identifies ONE object of a pool (used for single-solution sub-queries)"""
+    PRED_CALLS["f_ix"] += 1
+    return o.ix == i
+
+
+@dataclass(eq=False)
+class CIx(Predicate):
+    """a Predicate subclass with a defaulted field whose body calls a function predicate (concretely, whatever the
+    ambient mode of the caller of evaluate() is)"""
+    x: Any
+    i: Any = 0
+
+    def __call__(self):
+        PRED_CALLS["CIx"] += 1
+        return f_ix(self.x, self.i) is True
+
+
 @dataclass(eq=False)
 class CSame(Predicate):
     x: Any
